@@ -13,10 +13,11 @@ def lemma_cases(thorough, Case):
         for ks in itertools.product(digits, repeat=n):
             kinds = sum(k << (2 * i) for i, k in enumerate(ks))
             cs.append(Case('lemma_vector_n%d_k%s' % (n, ''.join(map(str, ks))), 'crypto', 'zzDKG_lemma_vector', [n, kinds], opts=dict(O)))
-    for (n, t) in ([(3, 1), (4, 2), (5, 2), (6, 3), (7, 3)] if thorough else [(3, 1), (4, 2)]):
+    # ((6,3) and (7,3) do not finish in reasonable time: the share polynomials have degree 3 in up to 7 points)
+    for (n, t) in ([(3, 1), (4, 2), (4, 1), (5, 1), (5, 2)] if thorough else [(3, 1), (4, 2)]):
         cs.append(Case('lemma_algebra_n%d_t%d' % (n, t), 'crypto', 'zzDKG_lemma_algebra', [n, t], opts=dict(O)))
     return cs
 
 LEMMA_BOUND = ('contract lemmas for the uninterpreted layer, run on the real dkg_core.c under the algebraic group model: G2_vector_read_bytes accepts a vector of n <= 3 (thorough 4) '
                'entries exactly when every entry is in G2 (entries c*g2, c*g2+T, -(c*g2+T), identity; every combination, including parts outside G2 that cancel) and decodes / re-encodes it faithfully; '
-               'Fr_polynomial_image_write, E2_polynomial_images and G2_check_log agree: P(i+1)*g2 = Q(i+1), honest shares verify and no other value does, for (n,t) in {(3,1),(4,2)} (thorough up to (7,3)), all coefficients symbolic')
+               'Fr_polynomial_image_write, E2_polynomial_images and G2_check_log agree: P(i+1)*g2 = Q(i+1), honest shares verify and no other value does, for (n,t) in {(3,1),(4,2)} (thorough adds (4,1),(5,1),(5,2)), all coefficients symbolic')
